@@ -537,7 +537,8 @@ def run_list(ctx):
         reads = []
         for c in b.calls:
             nm = c.callee_name()
-            if nm in SEARCHES or nm in ('iter', 'into_iter', 'get_unchecked', 'get', 'first', 'last', 'len', 'is_empty'):
+            # (the length alone shows no stored key or value to anybody: `len()` / `is_empty()` of the physical buffer are not exposures)
+            if nm in SEARCHES or nm in ('iter', 'into_iter', 'get_unchecked', 'get', 'first', 'last', 'index', 'first_mut', 'last_mut', 'get_mut', 'iter_mut', 'as_slice'):
                 base = strip(c.args[0]) if c.args else None
                 # look through deref
                 seen = 0
